@@ -10,7 +10,8 @@
    obs      = (auto ((kind value consumed rep) ...))
               auto = what privateIP4() returns here (used when mid = 0);
               kind 0 Ok, 1 ErrTimeUnitOverflow, 2 ErrClockGoneBackwards, 3 ErrUUIDIntOverflow,
-              4 Blocked (the scripted clock ran dry inside the call), 5 other panic;
+              4 Blocked (the scripted clock ran dry inside the call), 5 other panic,
+              6 the call never returned (parked on the generator's mutex for good);
               consumed = number of readings the call took; rep > 1 abbreviates rep calls that
               each took one reading and returned value, value+1, ... (ids) or the same
               error again *)
@@ -154,10 +155,13 @@ Definition prop_gen (g : gen) : verdict :=
   let inrange := nonneg && forallb (fun t => t <=? maxTU) all in
   let p := fold_left (prop_step (g_mid g) nonneg inrange) (g_obs g)
                      (mkP (g_t0 g) 0 0 (g_clock g) true true true true) in
-  vjoin (check_that (p5 p) (VPropFail 5))
+  (* outcome kind 6: the call never returned (the harness found its goroutine parked on the
+     generator's mutex with nobody inside Next): generation must not stop *)
+  vjoin (check_that (forallb (fun o => let '(k, _, _) := o in negb (k =? 6)) (g_obs g)) (VPropFail 6))
+ (vjoin (check_that (p5 p) (VPropFail 5))
  (vjoin (check_that (p1 p) (VPropFail 1))
  (vjoin (check_that (p2 p) (VPropFail 2))
-        (check_that (p3 p) (VPropFail 3)))).
+        (check_that (p3 p) (VPropFail 3))))).
 
 Definition ids_of (g : gen) : list Z :=
   flat_map (fun o => let '(k, v, _) := o in if k =? 0 then [v] else []) (g_obs g).
